@@ -17,6 +17,9 @@ type TreeCfg struct {
 	Maturity   []uint16
 	ForkProb   int // percent of blocks that fork off a non-leaf
 	NoUtxo     bool
+	// BigSteps mixes timestamp steps of minutes into the usual 1-3 s so that
+	// median times differ between branches by more than a 512-second unit.
+	BigSteps bool
 }
 
 // GenTree draws a block tree.
@@ -66,6 +69,9 @@ func GenTree(t *rapid.T, cfg TreeCfg) *Tree {
 			opt.Hard = rapid.IntRange(0, 3).Draw(t, "hard") == 0
 		default:
 			opt.TimeDelta = int64(rapid.IntRange(1, 3).Draw(t, "dt"))
+			if cfg.BigSteps && rapid.IntRange(0, 2).Draw(t, "bigStep") == 0 {
+				opt.TimeDelta = rapid.SampledFrom([]int64{200, 512, 600, 1100, 1500}).Draw(t, "bigDt")
+			}
 		}
 		if fam == FamNoBIP34 {
 			// duplicate-able coinbase: mostly when the earlier copy is fully
